@@ -7,6 +7,7 @@ from ..model import Function, Class
 from ..scope import FuncInfo
 from ..cfg import CFG, reaching_defs, header_expr
 from ..callgraph import own_walk
+from ..astutil import src
 
 _OBJ_ATTRS = set(dir(object)) | set(dir(collections.abc.MutableSequence)) | {
     '__dict__', '__module__', '__weakref__', '__class__', 'data'}
@@ -146,4 +147,85 @@ def run_r1(run, funcs, rule='R1'):
         if f.module.short == 'stdlib/collections':
             continue
         total += check_function(run, f, rule)
+    fl = [f for f in funcs if f.module.short != 'stdlib/collections']
+    check_call_signatures(run, fl)
+    from .r20_shapes import check_predicate_results
+    check_predicate_results(run, fl)
     return total
+
+
+# --------------------------------------------------------------------------- R1a: call signatures
+def _sig(g, bound):
+    """(min positional, max positional or None, keyword names, accepts **kw) for a call of g; bound: receiver already supplied"""
+    a = g.node.args
+    pos = [p.arg for p in a.posonlyargs + a.args]
+    if bound and pos:
+        pos = pos[1:]
+    ndef = len(a.defaults)
+    required = pos[:len(pos) - ndef] if ndef <= len(pos) else []
+    kwonly = [p.arg for p in a.kwonlyargs]
+    kwreq = [p.arg for p, d in zip(a.kwonlyargs, a.kw_defaults) if d is None]
+    return pos, required, kwonly, kwreq, a.vararg is not None, a.kwarg is not None
+
+
+def check_call_signatures(run, funcs, rule='R1a'):
+    """Every call whose callee resolves statically to a function, method or class of the package passes a number of positional
+    arguments and keyword names that the callee's signature accepts (classes: the __init__ found through the MRO; `cls(..)`
+    inside a classmethod: the __init__ of every concrete receiver class).  A mismatch raises TypeError on every execution."""
+    prog = run.prog
+    n = 0
+    for f in funcs:
+        fi = FuncInfo.of(f)
+        for c in own_walk(f.node):
+            if not isinstance(c, ast.Call):
+                continue
+            if any(isinstance(a, ast.Starred) for a in c.args) or any(k.arg is None for k in c.keywords):
+                continue
+            t = fi.resolve(c.func)
+            targets = []
+            if t.kind == 'func' and isinstance(t.obj, Function):
+                targets = [(t.obj, False)]
+            elif t.kind == 'method' and isinstance(t.obj, Function):
+                g = t.obj
+                # ClassName.method(obj, ...) is unbound; self.method(...) / cls.classmethod(...) are bound
+                via_class = isinstance(c.func, ast.Attribute) and fi.resolve(c.func.value).kind in ('class', 'selfclass')
+                if g.kind in ('class', 'classmethod'):
+                    bound = True
+                elif g.kind in ('static', 'staticmethod'):
+                    bound = False
+                else:
+                    bound = not via_class
+                targets = [(g, bound)]
+            elif t.kind == 'class' and isinstance(t.obj, Class):
+                k, init = prog.lookup_member(t.obj, '__init__')
+                if isinstance(init, Function):
+                    targets = [(init, True)]
+            elif t.kind == 'selfclass' and t.obj is not None:
+                for sub in receiver_classes(prog, f) or [t.obj]:
+                    k, init = prog.lookup_member(sub, '__init__')
+                    if isinstance(init, Function) and (init, True) not in targets:
+                        targets.append((init, True))
+            for (g, bound) in targets:
+                if g.module.short == 'stdlib/collections':
+                    continue
+                pos, required, kwonly, kwreq, var, kw = _sig(g, bound)
+                n += 1
+                npos = len(c.args)
+                names = [k.arg for k in c.keywords]
+                construct = 'call %s -> %s' % (src(c, 50), g.key)
+                problems = []
+                if npos > len(pos) and not var:
+                    problems.append('%d positional arguments given, %s takes at most %d' % (npos, g.qualname, len(pos)))
+                for nm in names:
+                    if nm not in pos and nm not in kwonly and not kw:
+                        problems.append('unexpected keyword %r' % nm)
+                    elif nm in pos[:npos]:
+                        problems.append('argument %r given both positionally and by keyword' % nm)
+                missing = [p for p in required[npos:] if p not in names] + [p for p in kwreq if p not in names]
+                if missing:
+                    problems.append('required argument(s) %s missing' % ', '.join(missing))
+                if problems:
+                    run.violation(rule, f.key, construct, '; '.join(problems) + ': the call raises TypeError whenever it is reached', f=f, node=c)
+                else:
+                    run.holds(rule, f.key, construct, 'arguments fit the signature', f=f, node=c, nontrivial=False)
+    return n
